@@ -132,7 +132,7 @@ func cmdVerify(args []string) {
 			}
 		}
 		bad += fail
-		fmt.Printf("%s: %d obligations, %d discharged, %d failed (%.1fs, %d facts, %d decls)\n", k, len(sc.obls), ok, fail, time.Since(t0).Seconds(), len(sc.facts), len(sc.decls))
+		fmt.Printf("%s: %d obligations, %d discharged, %d failed (%.1fs, %d facts, %d decls, %d dropped)\n", k, len(sc.obls), ok, fail, time.Since(t0).Seconds(), len(sc.facts), len(sc.decls), sc.dropped)
 	}
 	if bad > 0 {
 		os.Exit(1)
